@@ -15,8 +15,8 @@ import random
 
 from vf import core
 
-THEOREMS = ["rw_pack_layout", "rw_exclusion", "rw_word_inv", "rw_try_nonblocking_legal",
-            "rw_single_consumer", "rw_release_admits", "rw_no_stranded"]
+THEOREMS = ["rw_pack_layout", "rw_overflow_refuted", "rw_exclusion", "rw_word_inv", "rw_try_nonblocking_legal",
+            "rw_single_consumer", "rw_release_admits", "rw_no_stranded_partial"]
 RD, WR, TRYRD, TRYWR, UNLOCK = 1, 2, 3, 4, 5
 T1_SOURCES = ["src/fiber_manager.c", "src/fiber.c", "src/fiber_rwlock.c", "src/fiber_mutex.c",
               "src/fiber_spinlock.c", "src/hazard_pointer.c"]
@@ -77,7 +77,7 @@ def _monitor(case, tr):
     wpending = 0            # a release CAS handed the lock to "one waiting writer" not yet identified
     rholders = set()        # readers that hold or have been handed the lock
     wait_w, wait_r = set(), set()   # announced, not yet handed ownership
-    to_wake = set()         # readers handed ownership whose wake-up is still due
+    rpending = 0            # readers handed the lock by a release CAS (by count), not yet identified by 901
     in_cs_w, in_cs_r = set(), set()  # fibers between their first cell access and their releasing CAS
     holds = [None] * n      # what the harness believes the fiber holds
     unl = {}                # unlocking fiber -> [expected wake-ups, done]
@@ -85,7 +85,8 @@ def _monitor(case, tr):
     stuck = []
 
     def word():
-        return canon(pack(1 if (wholder is not None or wpending) else 0, len(rholders), len(wait_r), len(wait_w) - wpending))
+        return canon(pack(1 if (wholder is not None or wpending) else 0, len(rholders) + rpending,
+                          len(wait_r) - rpending, len(wait_w) - wpending))
 
     for i, (t, loc, kind, val) in enumerate(tr):
         if kind == 919 and loc == 0 and val in (7, 8):
@@ -116,29 +117,38 @@ def _monitor(case, tr):
                         wholder = None; in_cs_w.discard(t)
                     else:
                         return "release CAS by %d which holds nothing" % t
-                    lastout = (not rholders) and wholder is None and not wpending
+                    lastout = (not rholders) and wholder is None and not wpending and not rpending
                     exp = 0
-                    if lastout and (wait_w or wait_r):
+                    if lastout and (wait_w or wait_r):   # lastout => nothing pending, so these are all unadmitted
                         for u, (e, d) in unl.items():
                             if d < e:
                                 return "release by %d admits waiters while %d is still popping the waiter list" % (t, u)
-                        if wait_w:
+                        # both kinds waiting: the property allows either hand-off; which one this
+                        # release chose is read off the waiter list it goes on to pop (301 / 311 = head
+                        # of write_waiters / read_waiters).  The writer that ends up with the lock may
+                        # even be one that announces itself after this CAS and enqueues first.
+                        to_writer = bool(wait_w)
+                        if wait_w and wait_r:
+                            j = nxt[i]
+                            if j is not None and tr[j][1] in (301, 311) and tr[j][2] == 9:
+                                to_writer = tr[j][1] == 301
+                        if to_writer:
                             wpending = 1; exp = 1
                         else:
                             exp = len(wait_r)
-                            rholders |= wait_r; to_wake = set(wait_r); wait_r = set()
+                            rpending = exp
                     unl[t] = [exp, 0]
                 elif announces:
                     (wait_r if op == RD else wait_w).add(t)
                 else:
                     if op in (RD, TRYRD):
-                        if wholder is not None or wpending or wait_w or wait_r:
+                        if wholder is not None or wpending or len(wait_w) > wpending or len(wait_r) > rpending:
                             return ("reader %d acquired the lock while writer=%s waiting_writers=%s waiting_readers=%s"
                                     % (t, wholder if wholder is not None else ("pending" if wpending else None),
                                        sorted(wait_w), sorted(wait_r)))
                         rholders.add(t)
                     elif op in (WR, TRYWR):
-                        if wholder is not None or wpending or rholders or wait_w or wait_r:
+                        if wholder is not None or wpending or rholders or rpending or wait_w or wait_r:
                             return ("writer %d acquired the lock while writer=%s readers=%s waiting_writers=%s waiting_readers=%s"
                                     % (t, wholder, sorted(rholders), sorted(wait_w), sorted(wait_r)))
                         wholder = t
@@ -154,8 +164,8 @@ def _monitor(case, tr):
                 return "fiber %d scheduled %d outside an unlock" % (t, f)
             if wpending and f in wait_w:
                 wait_w.discard(f); wholder = f; wpending = 0
-            elif f in to_wake:
-                to_wake.discard(f)
+            elif rpending and f in wait_r:
+                wait_r.discard(f); rholders.add(f); rpending -= 1
             else:
                 return "unlock by %d woke fiber %d which had not been handed the lock" % (t, f)
             unl[t][1] += 1
@@ -164,7 +174,7 @@ def _monitor(case, tr):
         elif loc == 200 + t and kind == 19 and val in (5, 3):
             waited[t] = True
         elif loc == 0 and kind == 919 and val == 1:
-            if t in wait_w or t in wait_r or t in to_wake:
+            if t in wait_w or t in wait_r:
                 return "fiber %d resumed from the waiter list without having been handed the lock and woken" % t
         elif loc == 500:
             if op in (WR, TRYWR) and kind == 19:
